@@ -43,7 +43,7 @@ RespClass(e) == IF e.resp.panic \/ e.resp.hung THEN "error"
                 ELSE "error"
 
 IsRead(e)  == e.op.op \in {"BlobGet", "ManGet"}
-IsEnv(e)   == e.op.op \in {"Restart", "Reconf", "GC", "GCPass", "Age", "MkCorrupt"}
+IsEnv(e)   == e.op.op \in {"Restart", "Reconf", "GC", "GCPass", "Age", "MkCorrupt", "ProbeAll"}
 
 \* the response: class, pinned status, and the fields the properties name
 CResp(e) ==
@@ -111,7 +111,7 @@ CSess(e) ==
 
 \* C15: nothing met while executing or observing was a panic, a hang or a 5xx
 CNoErr(e) ==
-  /\ ~e.resp.panic /\ ~e.resp.hung /\ (IsEnv(e) \/ e.resp.status < 500)
+  /\ ~e.resp.panic /\ ~e.resp.hung /\ ((IsEnv(e) /\ e.op.op # "ProbeAll") \/ e.resp.status < 500)
   /\ \A r \in DOMAIN e.obs : e.obs[r].errs = <<>>
 
 \* C05 / C06: a collection (op GC, or the collection a directory store runs on Close = op Restart).  `pre` is the
